@@ -984,102 +984,354 @@ func (c *Ctx) derivesFromShape(v ssa.Value, reach map[*ssa.Function]bool, depth 
 }
 
 // ---------------------------------------------------------------------------------------------
-// R9f — no valid axis is refused
+// R9f — no valid axis is refused, and the axis that reaches gorgonia is the requested one
 // ---------------------------------------------------------------------------------------------
 //
-// "negative axes allowed" / "every axis in positive and negative spelling": for every rank r in 1..4 and every
-// a in [-r, r) (Flatten: [-r, r]) the operator must not answer with an error. The partial path interpreter
-// (pinterp.go) binds the attribute field to a and the rank of inputs[0] to r and walks Apply (and Init, with
-// the attribute getter bound to a): a branch whose condition is fully determined by (a, r) and whose taken
-// edge always returns a non-nil error (or panics) refuses a valid axis. Conditions that depend on anything
-// else are unknown and never reported.
-func ruleAxisAccept(c *Ctx, prop string) {
-	type hit struct {
-		pos  token.Pos
-		fn   *ssa.Function
-		a, r int64
-	}
-	var wrong []hit
-	var wrongGot []int64
-	sinks := 0
-	runOne := func(entry *ssa.Function, args func(a int64) []pval, field func(a int64) func(*types.Named, int) (pval, bool),
-		seed func(a int64) func(*ssa.Call) (pval, bool), flatten bool, rankFree bool) (hits []hit, decided int, aborted bool) {
-		seen := map[*ssa.If]bool{}
-		seenCall := map[*ssa.Call]bool{}
-		wrong, wrongGot, sinks = nil, nil, 0
-		for r := int64(1); r <= 4; r++ {
-			if rankFree && r != 4 {
-				continue
-			}
-			hi := r - 1
-			if flatten {
-				hi = r
-			}
-			for a := -r; a <= hi; a++ {
-				a, r := a, r
-				p := &pinterp{c: c, budget: 400000}
-				if field != nil {
-					p.field = field(a)
-				}
-				if seed != nil {
-					p.callSeed = seed(a)
-				}
-				if !rankFree {
-					p.rankOf = func(k int64) (int64, bool) { return r, k == 0 }
-				}
-				p.onReject = func(fn *ssa.Function, iff *ssa.If, truth bool) {
-					if !seen[iff] {
-						seen[iff] = true
-						pos := iff.Cond.Pos()
-						if pos == token.NoPos {
-							pos = fn.Pos()
-						}
-						hits = append(hits, hit{pos, fn, a, r})
-					}
-				}
-				exp := a
-				if a < 0 {
-					exp = a + r
-				}
-				if !rankFree {
-					p.onExt = func(fn *ssa.Function, call *ssa.Call, key string, operands []pval) {
-						ct, ok := axisContracts[key]
-						if !ok || ct.arg < 0 || ct.arg >= len(operands) {
-							return
-						}
-						v := operands[ct.arg]
-						if v.k != pInt || !v.dep {
-							return
-						}
-						sinks++
-						if v.i == exp || (ct.resolves && v.i == a) {
-							return
-						}
-						if !seenCall[call] {
-							seenCall[call] = true
-							wrong = append(wrong, hit{call.Pos(), fn, a, r})
-							wrongGot = append(wrongGot, v.i)
-						}
-					}
-				}
-				p.run(entry, args(a), 0)
-				decided += p.decided
-				aborted = aborted || p.aborted
-			}
-		}
+// "negative axes allowed" / "every axis in positive and negative spelling" / "any set of valid axes, negative or
+// unsorted": the space is a finite table — rank 1..4 (0..3 for the list operators), every valid axis or every
+// subset of valid axes in positive, negative and mixed spelling, ascending and descending. The partial path
+// interpreter (pinterp.go) binds the attribute field or the list-valued input to the cell's axes, the rank and
+// the extents of inputs[0] to the cell's shape, and walks Apply (and Init, with the attribute getter bound):
+//   refused     a branch whose condition is fully determined by the cell and whose taken edge always returns a
+//               non-nil error or panics (an index out of range on a cell-dependent index counts as a panic);
+//   wrong-axis  an axis argument of a gorgonia call with an axis contract that is not axis mod rank;
+//   wrong-shape the shape handed to Reshape is not the one ONNX prescribes for the cell (Flatten, Squeeze,
+//               Unsqueeze).
+// Conditions and values that depend on anything else are unknown and never reported.
+
+type axisCell struct {
+	rank    int64
+	extents []int64
+	axis    int64           // scalar sources
+	lists   map[int64][]int64 // list-valued inputs (by input position)
+	field   []int64         // list-valued attribute
+	absent  map[int64]bool
+	shapes  map[int64][]int64 // shapes of further inputs (input 0: rank/extents)
+	outShape []int64          // expected argument of tensor.WithShape(list) (nil: not checked)
+	refuse  bool              // the request is invalid: Reshape must not be reached with an acceptable shape
+	norm    []int64 // the normalised axes, in the order given
+	shape   []int64 // expected argument of Reshape (nil: not checked)
+	desc    string
+}
+
+type axisHit struct {
+	kind string // refused / wrong-axis / wrong-shape / panic
+	pos  token.Pos
+	fn   *ssa.Function
+	cell *axisCell
+	got  string
+}
+
+type axisRun struct {
+	c        *Ctx
+	named    *types.Named
+	fi       int
+	listFld  bool
+	getter   *ssa.Call
+	hits     []axisHit
+	seen     map[string]bool
+	decided  int
+	sinks    int
+	reshapes int
+	aborted  bool
+}
+
+func fmtInts(l []int64) string { return strings.ReplaceAll(fmt.Sprint(l), " ", ",") }
+
+func (ar *axisRun) add(kind string, pos token.Pos, fn *ssa.Function, cell *axisCell, got string) {
+	k := fmt.Sprintf("%s@%d@%p", kind, pos, fn)
+	if ar.seen[k] {
 		return
 	}
+	ar.seen[k] = true
+	ar.hits = append(ar.hits, axisHit{kind, pos, fn, cell, got})
+}
+
+func (ar *axisRun) run(entry *ssa.Function, args []pval, cell *axisCell, init bool) {
+	c := ar.c
+	p := &pinterp{c: c, budget: 600000}
+	if !init {
+		shapeOf := func(k int64) ([]int64, bool) {
+			if k == 0 {
+				if int64(len(cell.extents)) != cell.rank {
+					return nil, false
+				}
+				return cell.extents, true
+			}
+			sh, ok := cell.shapes[k]
+			return sh, ok
+		}
+		p.rankOf = func(k int64) (int64, bool) {
+			if k == 0 {
+				return cell.rank, true
+			}
+			sh, ok := shapeOf(k)
+			return int64(len(sh)), ok
+		}
+		p.extentOf = func(k, i int64) (int64, bool) {
+			sh, ok := shapeOf(k)
+			if !ok || i < 0 || i >= int64(len(sh)) {
+				return 0, false
+			}
+			return sh[i], true
+		}
+		p.present = func(k int64) bool { return !cell.absent[k] }
+		p.inputList = func(k int64) ([]int64, bool) { l, ok := cell.lists[k]; return l, ok }
+		if ar.named != nil {
+			p.field = func(h *pheap, nn *types.Named, idx int) (pval, bool) {
+				if nn.Obj() != ar.named.Obj() || idx != ar.fi {
+					return pval{}, false
+				}
+				if ar.listFld {
+					l := make([]pval, len(cell.field))
+					for i, v := range cell.field {
+						l[i] = pval{k: pInt, i: v, dep: true}
+					}
+					return h.alloc(l), true
+				}
+				return pval{k: pInt, i: cell.axis, dep: true}, true
+			}
+		}
+	} else {
+		p.callSeed = func(cl *ssa.Call) (pval, bool) {
+			if cl == ar.getter {
+				return pval{k: pInt, i: cell.axis, dep: true}, true
+			}
+			return pval{}, false
+		}
+	}
+	p.onReject = func(fn *ssa.Function, iff *ssa.If, truth bool) {
+		pos := iff.Cond.Pos()
+		if pos == token.NoPos {
+			pos = fn.Pos()
+		}
+		ar.add("refused", pos, fn, cell, "")
+	}
+	p.onPanic = func(fn *ssa.Function, in ssa.Instruction, what string) {
+		ar.add("panic", in.Pos(), fn, cell, what)
+	}
+	if !init {
+		p.onExt = func(fn *ssa.Function, call *ssa.Call, key string, operands []pval, h *pheap) {
+			if strings.HasSuffix(key, ".WithShape") && cell.outShape != nil && len(operands) == 1 && operands[0].k == pList {
+				l := h.lists[operands[0].i]
+				if l == nil {
+					return
+				}
+				got := make([]int64, len(l))
+				for i, e := range l {
+					if e.k != pInt {
+						return
+					}
+					got[i] = e.i
+				}
+				ar.reshapes++
+				if fmtInts(got) != fmtInts(cell.outShape) {
+					ar.add("wrong-shape", call.Pos(), fn, cell, fmtInts(got))
+				}
+				return
+			}
+			if strings.HasSuffix(key, "#Reshape") && fn != entry {
+				return // views inside helpers (ops.ReduceAxes) are judged by the helper's own contract
+			}
+			if strings.HasSuffix(key, "#Reshape") && cell.refuse && len(operands) == 2 && operands[1].k == pList {
+				l := h.lists[operands[1].i]
+				if l == nil {
+					return
+				}
+				prod, okp := int64(1), true
+				got := make([]int64, len(l))
+				for i, e := range l {
+					if e.k != pInt || e.i <= 0 {
+						okp = false
+						break
+					}
+					got[i] = e.i
+					prod *= e.i
+				}
+				ar.reshapes++
+				if okp && prod == prodInts(cell.extents) {
+					ar.add("accepted", call.Pos(), fn, cell, fmtInts(got))
+				}
+				return
+			}
+			if strings.HasSuffix(key, "#Reshape") && cell.shape != nil && len(operands) == 2 && operands[1].k == pList {
+				l := h.lists[operands[1].i]
+				if l == nil {
+					return
+				}
+				got := make([]int64, len(l))
+				for i, e := range l {
+					if e.k != pInt {
+						return
+					}
+					got[i] = e.i
+				}
+				ar.reshapes++
+				if fmtInts(got) != fmtInts(cell.shape) {
+					ar.add("wrong-shape", call.Pos(), fn, cell, fmtInts(got))
+				}
+				return
+			}
+			ct, ok := axisContracts[key]
+			if !ok {
+				return
+			}
+			if ct.arg >= 0 {
+				if ct.arg >= len(operands) || len(cell.norm) != 1 {
+					return
+				}
+				v := operands[ct.arg]
+				if v.k != pInt || !v.dep {
+					return
+				}
+				ar.sinks++
+				if v.i == cell.norm[0] || (ct.resolves && v.i == cell.axis) {
+					return
+				}
+				ar.add("wrong-axis", call.Pos(), fn, cell, fmt.Sprint(v.i))
+				return
+			}
+			if true {
+				return // reductions: judged where the axes enter the reduction (onReduce / ops.ReduceAxes below)
+			}
+			// trailing variadic list of axes (reductions)
+			last := operands[len(operands)-1]
+			if last.k != pList || !(strings.HasSuffix(key, "#Max") || strings.HasSuffix(key, "#Min")) {
+				return
+			}
+			l := h.lists[last.i]
+			if l == nil {
+				return
+			}
+			got := make([]int64, len(l))
+			for i, e := range l {
+				if e.k != pInt {
+					return
+				}
+				got[i] = e.i
+			}
+			ar.sinks++
+			a, b := append([]int64{}, got...), append([]int64{}, cell.norm...)
+			sort.Slice(a, func(i, j int) bool { return a[i] < a[j] })
+			sort.Slice(b, func(i, j int) bool { return b[i] < b[j] })
+			if fmtInts(a) != fmtInts(b) {
+				ar.add("wrong-axis", call.Pos(), fn, cell, fmtInts(got))
+			}
+		}
+	}
+	if !init && len(cell.norm) > 0 && (ar.listFld || len(cell.field) > 0) {
+		checkAxes := func(fn *ssa.Function, call *ssa.Call, got []int64) {
+			ar.sinks++
+			a, b := append([]int64{}, got...), append([]int64{}, cell.norm...)
+			sort.Slice(a, func(i, j int) bool { return a[i] < a[j] })
+			sort.Slice(b, func(i, j int) bool { return b[i] < b[j] })
+			if fmtInts(a) != fmtInts(b) {
+				ar.add("wrong-axis", call.Pos(), fn, cell, fmtInts(got))
+			}
+		}
+		p.onReduce = func(fn *ssa.Function, call *ssa.Call, name string, shape, axes []int64) {
+			if fn == entry {
+				checkAxes(fn, call, axes)
+			}
+		}
+		p.onLib = func(fn *ssa.Function, call *ssa.Call, callee *ssa.Function, args []pval, h *pheap) {
+			if fn != entry || callee.Name() != "ReduceAxes" || fnPkgPath(callee) != pkgOps || len(args) != 3 || args[1].k != pList {
+				return
+			}
+			l := h.lists[args[1].i]
+			if l == nil {
+				return
+			}
+			got := make([]int64, len(l))
+			for i, e := range l {
+				if e.k != pInt {
+					return
+				}
+				got[i] = e.i
+			}
+			checkAxes(fn, call, got)
+		}
+	}
+	p.run(entry, args, 0, nil)
+	ar.decided += p.decided
+	ar.aborted = ar.aborted || p.aborted
+}
+
+func prodInts(l []int64) int64 {
+	p := int64(1)
+	for _, v := range l {
+		p *= v
+	}
+	return p
+}
+
+// spellings of a set of axes: all positive, all negative, alternating; each ascending and descending.
+func axisSpellings(axes []int64, rank int64) [][]int64 {
+	var out [][]int64
+	for mode := 0; mode < 3; mode++ {
+		l := make([]int64, len(axes))
+		for i, a := range axes {
+			neg := mode == 1 || (mode == 2 && i%2 == 0)
+			l[i] = a
+			if neg {
+				l[i] = a - rank
+			}
+		}
+		out = append(out, l)
+		if len(l) > 1 {
+			r := make([]int64, len(l))
+			for i := range l {
+				r[len(l)-1-i] = l[i]
+			}
+			out = append(out, r)
+		}
+	}
+	return out
+}
+
+func subsetsOf(n int64) [][]int64 {
+	var out [][]int64
+	for m := 1; m < 1<<uint(n); m++ {
+		var s []int64
+		for i := int64(0); i < n; i++ {
+			if m&(1<<uint(i)) != 0 {
+				s = append(s, i)
+			}
+		}
+		out = append(out, s)
+	}
+	return out
+}
+
+func normAxes(l []int64, rank int64) []int64 {
+	out := make([]int64, len(l))
+	for i, a := range l {
+		out[i] = a
+		if a < 0 {
+			out[i] = a + rank
+		}
+	}
+	return out
+}
+
+func ruleAxisAccept(c *Ctx, prop string) {
 	// controls
 	ctlBad, ctlGood := StDischarged, StDischarged
 	for _, f := range c.ctlFns {
 		if f.Name() != "BadAxisGuard" && f.Name() != "GoodAxisGuard" {
 			continue
 		}
-		hits, _, _ := runOne(f, func(a int64) []pval { return []pval{{k: pInt, i: a, dep: true}, {k: pInputs}} }, nil, nil, false, false)
-		if f.Name() == "BadAxisGuard" && len(hits) > 0 && hits[0].a == -hits[0].r {
+		ar := &axisRun{c: c, seen: map[string]bool{}}
+		for r := int64(1); r <= 4; r++ {
+			for a := -r; a < r; a++ {
+				cell := &axisCell{rank: r, axis: a, norm: normAxes([]int64{a}, r)}
+				ar.run(f, []pval{{k: pInt, i: a, dep: true}, {k: pInputs}}, cell, false)
+			}
+		}
+		if f.Name() == "BadAxisGuard" && len(ar.hits) > 0 && ar.hits[0].kind == "refused" && ar.hits[0].cell.axis == -ar.hits[0].cell.rank {
 			ctlBad = StViolated
 		}
-		if f.Name() == "GoodAxisGuard" && len(hits) > 0 {
+		if f.Name() == "GoodAxisGuard" && len(ar.hits) > 0 {
 			ctlGood = StViolated
 		}
 	}
@@ -1096,114 +1348,279 @@ func ruleAxisAccept(c *Ctx, prop string) {
 				mine = true
 			}
 		}
-		if !mine || src.kind != "axis" || src.field == "" || !src.negOK {
+		if !mine || !src.negOK || src.kind == "indices" {
 			continue
 		}
 		oi := c.opByName(src.op)
 		label := src.op + "." + src.field
+		if src.input >= 0 {
+			label = fmt.Sprintf("%s.inputs[%d]", src.op, src.input)
+		}
 		if oi == nil {
 			c.undecided("R9", "R9f:"+label, "", "operator type "+src.op+" not found")
 			continue
 		}
-		fi := fieldIndex(oi.named, src.field)
-		if fi < 0 {
-			c.undecided("R9", "R9f:"+label, c.pos(oi.named.Obj().Pos()), "attribute field "+src.field+" no longer exists")
-			continue
+		apply, init := oi.methods["Apply"], oi.methods["Init"]
+		ar := &axisRun{c: c, seen: map[string]bool{}}
+		if src.field != "" {
+			fi := fieldIndex(oi.named, src.field)
+			if fi < 0 {
+				c.undecided("R9", "R9f:"+label, c.pos(oi.named.Obj().Pos()), "attribute field "+src.field+" no longer exists")
+				continue
+			}
+			ar.named, ar.fi, ar.listFld = oi.named, fi, src.kind == "axes"
 		}
 		n++
-		apply, init := oi.methods["Apply"], oi.methods["Init"]
-		named := oi.named
-		field := func(a int64) func(*types.Named, int) (pval, bool) {
-			return func(nn *types.Named, idx int) (pval, bool) {
-				if nn.Obj() == named.Obj() && idx == fi {
-					return pval{k: pInt, i: a, dep: true}, true
+		args := []pval{{k: pRecv}, {k: pInputs}}
+		cells := 0
+		switch {
+		case src.kind == "axis":
+			flatten := src.op == "Flatten"
+			for r := int64(1); r <= 4; r++ {
+				hi := r - 1
+				if flatten {
+					hi = r
 				}
-				return pval{}, false
-			}
-		}
-		hits, decided, aborted := runOne(apply, func(int64) []pval { return []pval{{k: pRecv}, {k: pInputs}} }, field, nil, src.op == "Flatten", false)
-		for i, h := range wrong {
-			exp := h.a
-			if exp < 0 {
-				exp += h.r
-			}
-			c.violate("R9", fmt.Sprintf("R9f:%s:wrong-axis@%s#%d", label, fname(h.fn), i+1), c.pos(h.pos),
-				fmt.Sprintf("with %s = %d and an operand of rank %d the value handed to gorgonia as the axis is %d, not %d: another axis than the requested one is used", src.field, h.a, h.r, wrongGot[i], exp))
-		}
-		nWrong := len(wrong)
-		c.counts["R9f.axis_arguments_evaluated"] += sinks
-		// Init: the getter call whose value is stored into the field
-		var getter *ssa.Call
-		if init != nil {
-			for f := range c.reachFrom([]*ssa.Function{init}) {
-				if !isLibFn(f) {
-					continue
+				ext := make([]int64, r)
+				for i := range ext {
+					ext[i] = int64(i) + 2
 				}
-				for _, b := range f.Blocks {
-					for _, in := range b.Instrs {
-						st, ok := in.(*ssa.Store)
-						if !ok {
+				for a := -r; a <= hi; a++ {
+					cell := &axisCell{rank: r, extents: ext, axis: a, norm: normAxes([]int64{a}, r), desc: fmt.Sprintf("%s = %d on an operand of shape %s (valid range [%d, %d])", src.field, a, fmtInts(ext), -r, hi)}
+					if flatten {
+						na := cell.norm[0]
+						cell.shape = []int64{prodInts(ext[:na]), prodInts(ext[na:])}
+					}
+					if src.op == "ArgMax" {
+						kept := append([]int64{}, ext...)
+						kept[cell.norm[0]] = 1
+						cell.shape = kept
+					}
+					if src.op == "Gather" {
+						// output shape = data[:axis] ++ indices.shape ++ data[axis+1:], for index tensors of rank 0..2
+						for _, ish := range [][]int64{{}, {2}, {3, 2}} {
+							c2 := *cell
+							c2.shapes = map[int64][]int64{1: ish}
+							c2.lists = map[int64][]int64{1: make([]int64, prodInts(ish))}
+							na := cell.norm[0]
+							c2.outShape = append(append(append([]int64{}, ext[:na]...), ish...), ext[na+1:]...)
+							c2.desc = cell.desc + fmt.Sprintf(" and an index tensor of shape %s", fmtInts(ish))
+							cells++
+							ar.run(apply, args, &c2, false)
+						}
+						continue
+					}
+					cells++
+					ar.run(apply, args, cell, false)
+				}
+			}
+			// Init: the getter call whose value is stored into the field
+			if init != nil {
+				for f := range c.reachFrom([]*ssa.Function{init}) {
+					for _, b := range f.Blocks {
+						for _, in := range b.Instrs {
+							st, ok := in.(*ssa.Store)
+							if !ok {
+								continue
+							}
+							fa, ok := st.Addr.(*ssa.FieldAddr)
+							if !ok || fa.Field != ar.fi {
+								continue
+							}
+							if nn, _ := structOfPtr(fa.X.Type()); nn == nil || nn.Obj() != oi.named.Obj() {
+								continue
+							}
+							if cl, ok := stripConv(st.Val).(*ssa.Call); ok {
+								ar.getter = cl
+							}
+						}
+					}
+				}
+				if ar.getter != nil {
+					hi := int64(3)
+					if flatten {
+						hi = 4
+					}
+					for a := int64(-4); a <= hi; a++ {
+						cell := &axisCell{rank: 4, axis: a, norm: normAxes([]int64{a}, 4), desc: fmt.Sprintf("%s = %d at Init (valid for an operand of rank 4)", src.field, a)}
+						cells++
+						ar.run(init, []pval{{k: pRecv}, {}}, cell, true)
+					}
+				}
+			}
+		case src.op == "Squeeze":
+			for r := int64(1); r <= 3; r++ {
+				for _, sub := range subsetsOf(r) {
+					ext := make([]int64, r)
+					for i := range ext {
+						ext[i] = int64(i) + 2
+					}
+					var want []int64
+					for _, a := range sub {
+						ext[a] = 1
+					}
+					in := map[int64]bool{}
+					for _, a := range sub {
+						in[a] = true
+					}
+					for i := int64(0); i < r; i++ {
+						if !in[i] {
+							want = append(want, ext[i])
+						}
+					}
+					if want == nil {
+						want = []int64{}
+					}
+					for _, sp := range axisSpellings(sub, r) {
+						cell := &axisCell{rank: r, extents: ext, lists: map[int64][]int64{1: sp}, norm: normAxes(sp, r), shape: want, desc: fmt.Sprintf("axes = %s on an operand of shape %s", fmtInts(sp), fmtInts(ext))}
+						cells++
+						ar.run(apply, args, cell, false)
+					}
+					// axes input absent: every unit axis goes
+					cell := &axisCell{rank: r, extents: ext, absent: map[int64]bool{1: true}, shape: want, desc: fmt.Sprintf("no axes input on an operand of shape %s", fmtInts(ext))}
+					cells++
+					ar.run(apply, args, cell, false)
+				}
+			}
+		case src.op == "Unsqueeze":
+			for r := int64(0); r <= 2; r++ {
+				for k := int64(1); k <= 2; k++ {
+					or := r + k
+					for _, sub := range subsetsOf(or) {
+						if int64(len(sub)) != k {
 							continue
 						}
-						fa, ok := st.Addr.(*ssa.FieldAddr)
-						if !ok || fa.Field != fi {
-							continue
+						ext := make([]int64, r)
+						for i := range ext {
+							ext[i] = int64(i) + 2
 						}
-						if nn, _ := structOfPtr(fa.X.Type()); nn == nil || nn.Obj() != named.Obj() {
-							continue
+						isNew := map[int64]bool{}
+						for _, a := range sub {
+							isNew[a] = true
 						}
-						if cl, ok := stripConv(st.Val).(*ssa.Call); ok {
-							getter = cl
+						want := make([]int64, 0, or)
+						j := 0
+						for i := int64(0); i < or; i++ {
+							if isNew[i] {
+								want = append(want, 1)
+							} else {
+								want = append(want, ext[j])
+								j++
+							}
+						}
+						for _, sp := range axisSpellings(sub, or) {
+							cell := &axisCell{rank: r, extents: ext, lists: map[int64][]int64{1: sp}, norm: normAxes(sp, or), shape: want, desc: fmt.Sprintf("axes = %s on an operand of shape %s (output rank %d)", fmtInts(sp), fmtInts(ext), or)}
+							cells++
+							ar.run(apply, args, cell, false)
 						}
 					}
 				}
 			}
-		}
-		if os.Getenv("R9FDEBUG") != "" {
-			fmt.Printf("R9FDEBUG %s getter=%v init=%v\n", label, getter != nil, init != nil)
-		}
-		if getter != nil {
-			seed := func(a int64) func(*ssa.Call) (pval, bool) {
-				return func(cl *ssa.Call) (pval, bool) {
-					if cl == getter {
-						return pval{k: pInt, i: a, dep: true}, true
+		case src.op == "ReduceMax" || src.op == "ReduceMin":
+			for r := int64(1); r <= 3; r++ {
+				ext := make([]int64, r)
+				for i := range ext {
+					ext[i] = int64(i) + 2
+				}
+				// no axes: every axis is reduced, with keepdims the kept shape is all ones
+				{
+					ones := make([]int64, r)
+					for i := range ones {
+						ones[i] = 1
 					}
-					return pval{}, false
+					cell := &axisCell{rank: r, extents: ext, field: []int64{}, norm: []int64{}, shape: ones, desc: fmt.Sprintf("no axes on an operand of shape %s", fmtInts(ext))}
+					cells++
+					ar.run(apply, args, cell, false)
+				}
+				for _, sub := range subsetsOf(r) {
+					for _, sp := range axisSpellings(sub, r) {
+						cell := &axisCell{rank: r, extents: ext, field: sp, norm: normAxes(sp, r), desc: fmt.Sprintf("axes = %s on an operand of shape %s", fmtInts(sp), fmtInts(ext))}
+						// with keepdims the result is reshaped to the input's shape with ones at the reduced axes
+						kept := append([]int64{}, ext...)
+						for _, a := range cell.norm {
+							kept[a] = 1
+						}
+						cell.shape = kept
+						cells++
+						ar.run(apply, args, cell, false)
+					}
 				}
 			}
-			h2, d2, ab2 := runOne(init, func(int64) []pval { return []pval{{k: pRecv}, {}} }, nil, seed, src.op == "Flatten", true)
-			hits = append(hits, h2...)
-			decided += d2
-			aborted = aborted || ab2
-		}
-		sort.Slice(hits, func(i, j int) bool { return hits[i].pos < hits[j].pos })
-		for i, h := range hits {
-			c.violate("R9", fmt.Sprintf("R9f:%s:refused@%s#%d", label, fname(h.fn), i+1), c.pos(h.pos),
-				fmt.Sprintf("a valid %s is refused: with %s = %d and an operand of rank %d (valid range [%d, %d]) this branch is taken and it always ends in an error — the property allows every axis in positive and negative spelling", src.kind, src.field, h.a, h.r, -h.r, h.r-1+b2i(src.op == "Flatten")))
-		}
-		if nWrong > 0 {
+		case src.op == "Slice":
+			for r := int64(1); r <= 3; r++ {
+				ext := make([]int64, r)
+				for i := range ext {
+					ext[i] = int64(i) + 2
+				}
+				for _, sub := range subsetsOf(r) {
+					if len(sub) > 2 {
+						continue
+					}
+					zeros, ones := make([]int64, len(sub)), make([]int64, len(sub))
+					for i := range ones {
+						ones[i] = 1
+					}
+					for _, sp := range axisSpellings(sub, r) {
+						for _, steps := range []bool{false, true} {
+							cell := &axisCell{rank: r, extents: ext, lists: map[int64][]int64{1: zeros, 2: ones, 3: sp}, absent: map[int64]bool{4: true}, norm: normAxes(sp, r), desc: fmt.Sprintf("starts = %s, ends = %s, axes = %s on an operand of shape %s", fmtInts(zeros), fmtInts(ones), fmtInts(sp), fmtInts(ext))}
+							if steps {
+								cell.absent = nil
+								cell.lists[4] = ones
+							}
+							cells++
+							ar.run(apply, args, cell, false)
+						}
+					}
+				}
+			}
+		default:
+			c.note("R9", "R9f:"+label, c.pos(apply.Pos()), "no table for this source")
 			continue
 		}
-		if len(hits) == 0 && decided == 0 {
-			c.undecided("R9", "R9f:"+label, c.pos(apply.Pos()), "no branch on the "+src.field+" attribute could be evaluated in Apply (not even its negative-axis normalisation): the way the attribute reaches its uses is not recognised")
-			continue
-		}
-		if len(hits) == 0 {
-			why := fmt.Sprintf("for every rank 1..4 and every valid spelling of %s no branch decided by (axis, rank) leads to an error (%d such branches evaluated over the table)", src.field, decided)
-			if aborted {
-				c.note("R9", "R9f:"+label, c.pos(apply.Pos()), why+"; some paths were abandoned at the step budget")
-			} else {
-				c.discharge("R9", "R9f:"+label, c.pos(apply.Pos()), why)
+		sort.Slice(ar.hits, func(i, j int) bool {
+			if ar.hits[i].kind != ar.hits[j].kind {
+				return ar.hits[i].kind < ar.hits[j].kind
+			}
+			return ar.hits[i].pos < ar.hits[j].pos
+		})
+		per := map[string]int{}
+		for _, h := range ar.hits {
+			per[h.kind]++
+			key := fmt.Sprintf("R9f:%s:%s@%s#%d", label, h.kind, fname(h.fn), per[h.kind])
+			pos := h.pos
+			if pos == token.NoPos {
+				pos = h.fn.Pos()
+			}
+			switch h.kind {
+			case "refused":
+				c.violate("R9", key, c.pos(pos), "a valid request is refused: with "+h.cell.desc+" this branch is taken and it always ends in an error — the property allows every valid axis in positive and negative spelling, in any order")
+			case "panic":
+				c.violate("R9", key, c.pos(pos), "a valid request panics: with "+h.cell.desc+": "+h.got)
+			case "wrong-axis":
+				c.violate("R9", key, c.pos(pos), fmt.Sprintf("with %s the axes handed to gorgonia are %s, not %s: other axes than the requested ones are used", h.cell.desc, h.got, fmtInts(h.cell.norm)))
+			case "accepted":
+				c.violate("R9", key, c.pos(pos), fmt.Sprintf("an invalid request is answered with a tensor: with %s gorgonia's Reshape is reached with the acceptable shape %s instead of an error", h.cell.desc, h.got))
+			case "wrong-shape":
+				c.violate("R9", key, c.pos(pos), fmt.Sprintf("with %s the shape handed to Reshape is %s, ONNX prescribes %s", h.cell.desc, h.got, fmtInts(h.cell.shape)))
 			}
 		}
-		c.counts["R9f.branches_evaluated"] += decided
+		c.counts["R9f.cells"] += cells
+		c.counts["R9f.branches_evaluated"] += ar.decided
+		c.counts["R9f.axis_arguments_evaluated"] += ar.sinks
+		c.counts["R9f.reshape_arguments_evaluated"] += ar.reshapes
+		if len(ar.hits) > 0 {
+			continue
+		}
+		if ar.decided == 0 {
+			c.undecided("R9", "R9f:"+label, c.pos(apply.Pos()), "no branch on the "+src.kind+" could be evaluated in Apply (not even the negative-axis normalisation): the way the value reaches its uses is not recognised")
+			continue
+		}
+		why := fmt.Sprintf("%d table cells (rank x every valid spelling): no branch decided by the cell leads to an error (%d such branches evaluated), %d axis arguments and %d Reshape arguments of gorgonia calls have the prescribed value", cells, ar.decided, ar.sinks, ar.reshapes)
+		if ar.aborted {
+			c.note("R9", "R9f:"+label, c.pos(apply.Pos()), why+"; some paths were abandoned at the step budget")
+		} else {
+			c.discharge("R9", "R9f:"+label, c.pos(apply.Pos()), why)
+		}
 	}
 	c.counts["R9f.sources"] += n
-}
-
-func b2i(b bool) int64 {
-	if b {
-		return 1
-	}
-	return 0
 }
